@@ -904,3 +904,98 @@ func verifRefStrip(s string) string {
 	g.ReplayGo = src
 	run.Extra["tputs_enumeration_max_len_bounded"] = maxLen
 }
+
+// c07Malformed: "malformed strings never panic or hang" - bounded native stand-in. Every proper prefix of every
+// program of the grammar corpus and of the sequences tcell hard-codes, plus a few truncated tokens, is handed to the
+// real TParm (integer and string parameters) in a goroutine with a deadline; a panic or a call that does not return
+// fails the obligation. Bounded: the corpus; the general clause over arbitrary byte strings is not proved.
+func c07Malformed(run *PropRun) {
+	seen := map[string]bool{}
+	var progs []string
+	add := func(s string) {
+		if !seen[s] {
+			seen[s] = true
+			progs = append(progs, s)
+		}
+	}
+	var base []string
+	base = append(base, grammarCorpus...)
+	var hk []string
+	for k := range hardCoded {
+		hk = append(hk, k)
+	}
+	sort.Strings(hk)
+	for _, k := range hk {
+		base = append(base, hardCoded[k])
+	}
+	base = append(base, "%p1%{12}%+%d", "%p1%'x'%+%c", "%?%p1%{3}%>%tA%eB%;", "%p1%Pz%gz%d", "%p1%l%d", "%p1%:-08.3x", "%p1%s%p2%s")
+	for _, p := range base {
+		for i := 0; i <= len(p); i++ {
+			add(p[:i])
+		}
+	}
+	for _, s := range []string{"%", "%{", "%{1", "%{12", "%{ }", "%{x}", "%'", "%'a", "%'ab", "%p", "%p0", "%pa", "%P", "%g", "%?", "%t", "%e", "%;", "%?%t", "%?%p1%t%e", "%e%;", "%;%;", "%1", "%.", "%:", "%:-", "%#", "% ", "%09", "%9999", "%z", "%\xff", "%p1%", "\x1b[%p1%{8", "%?%?%?", "%{-1}%d", "%d", "%c", "%s", "%+", "%l", "%!", "%~", "%p1%p2%/%d", "%p1%{0}%/%d", "%p1%{0}%m%d"} {
+		add(s)
+	}
+	var lit strings.Builder
+	for _, p := range progs {
+		fmt.Fprintf(&lit, "%q,\n", p)
+	}
+	src := replayTest("terminfo", []string{"time"}, fmt.Sprintf(`
+	progs := []string{
+%s	}
+	ti := &Terminfo{}
+	bad := ""
+	n := 0
+	for _, p := range progs {
+		for _, params := range [][]interface{}{{}, {0}, {1, 2, 3, 4, 5, 6, 7, 8, 9}, {"ab", "c"}, {-1, 0}} {
+			done := make(chan string, 1)
+			go func(p string, params []interface{}) {
+				defer func() {
+					if r := recover(); r != nil {
+						done <- fmt.Sprintf("panic: %%v", r)
+					}
+				}()
+				_ = ti.TParm(p, params...)
+				done <- ""
+			}(p, params)
+			select {
+			case r := <-done:
+				if r != "" && bad == "" {
+					bad = fmt.Sprintf("TParm(%%q, %%v): %%s", p, params, r)
+				}
+			case <-time.After(3 * time.Second):
+				bad = fmt.Sprintf("TParm(%%q, %%v) did not return within 3 s", p, params)
+			}
+			n++
+			if bad != "" {
+				break
+			}
+		}
+		if bad != "" {
+			break
+		}
+	}
+	if bad != "" { fmt.Println("MALFORMED FAIL " + bad); fail("%%s", bad); return }
+	fmt.Printf("MALFORMED OK %%d\n", n)`, lit.String()))
+	out, err := runOverlayTest(run.Eng.Repo, run.Eng.Repo+"/terminfo", src, 300*time.Second, nil)
+	ok, detail := false, ""
+	for _, ln := range strings.Split(out, "\n") {
+		if strings.HasPrefix(ln, "MALFORMED OK ") {
+			ok = true
+			detail = strings.TrimPrefix(ln, "MALFORMED OK ") + " calls"
+		}
+		if strings.HasPrefix(ln, "MALFORMED FAIL ") && detail == "" {
+			detail = strings.TrimPrefix(ln, "MALFORMED FAIL ")
+		}
+	}
+	if !ok && detail == "" {
+		run.Errors = append(run.Errors, fmt.Sprintf("malformed-program corpus did not run: %v %s", err, tail(out, 400)))
+		return
+	}
+	g := run.AddObligation("tparm-malformed/returns-without-panic", "table-bounded", BoolT(ok),
+		fmt.Sprintf("the real TParm returns (no panic, no hang: 3 s deadline per call) on every proper prefix of the grammar corpus and of the hard-coded sequences and on a list of truncated tokens, %d strings x 5 parameter lists (native, bounded): %s", len(progs), detail))
+	g.ReplayDir = run.Eng.Repo + "/terminfo"
+	g.ReplayGo = src
+	run.Extra["malformed_program_corpus_bounded"] = len(progs)
+}
